@@ -569,6 +569,10 @@ package sam
 //@ func Variants prefix
 //@   modifies everything
 //@   after if#3: assert [c18.oneref] len(refs) == 1
+//@   # C11: the writer is started with the window, threshold and --append-snps exactly as given on the command line (the same
+//@   # values `variants` hands to the same writers), and with the reference's ID
+//@   before call:AggregateWriteVariants#1: assert [c11.writer.args] arg(1) == old(start) && arg(2) == old(end) && arg(3) == old(appendSNP) && (arg(4) == old(threshold) || (isnan(arg(4)) && isnan(old(threshold)))) && arg(5) == ref.ID
+//@   before call:WriteVariants#1: assert [c11.writer.args] arg(1) == old(start) && arg(2) == old(end) && arg(3) == false && arg(4) == old(appendSNP) && arg(5) == ref.ID
 
 //@ # C11 (SAM side): each received pair's rows are byte-encoded in place with the encoding table (so they are the rows
 //@ # `variants` reads from the FASTA form of the same pair, C16/EA_case), the offset tables are GetMSAOffsets of the
